@@ -66,7 +66,7 @@ def gen_case(rng, spec):
             break
     kind = rng.choice(KINDS)
     V = sorted(g["V"])
-    if not spec.get("long") and rng.random() < 0.02:
+    if not spec.get("long") and rng.random() < 0.03:
         # scale (also on the quick tier): one left-to-right pass of 140-220 tokens on a recursive grammar, i.e. more
         # than a hundred cached prefixes on one object, then earlier contexts again
         for _ in range(20):
